@@ -1346,6 +1346,11 @@ class Engine:
             raise PyRaise('AttributeError', "function has no attribute '%s'" % attr, node=node)
         if isinstance(base, ModRef):
             return self.loader.resolve_external(base.dotted + '.' + attr, self)
+        if isinstance(base, Builtin) and '.' in base.name:
+            # an attribute of an external callable (itertools.chain.from_iterable): resolved like a dotted external name
+            from . import externals as _ext
+            if (base.name + '.' + attr) in _ext.TABLE or (base.name + '.' + attr) in _ext.EXTRA:
+                return self.loader.resolve_external(base.name + '.' + attr, self)
         if type(base).__name__ == 'RepoModRef':
             return self.loader.repomod_getattr(base, attr, self)
         if isinstance(base, ClassRef):
